@@ -81,9 +81,12 @@ theorem hasTyB_sound (st : StructTable) (n : Nat) (sT cT : String → Ty) :
     simp only [HasTy]
     exact ⟨h.1, hasTyListB_sound st n sT cT xs _ h.2⟩
   | .map kvs, t, h => by
-    simp only [hasTyB, Bool.and_eq_true, bne_iff_ne, ne_eq, beq_iff_eq] at h
+    simp only [hasTyB, Bool.or_eq_true, Bool.and_eq_true, bne_iff_ne, ne_eq, beq_iff_eq,
+      Option.isNone_iff_eq_none] at h
     simp only [HasTy]
-    exact ⟨h.1.1, h.1.2, hasTyFieldsB_sound st n sT cT kvs _ h.2⟩
+    rcases h with h | h
+    · exact Or.inl ⟨h.1.1, h.1.2, hasTyFieldsB_sound st n sT cT kvs _ h.2⟩
+    · exact Or.inr ⟨h.1.1.1, h.1.1.2, h.1.2, h.2⟩
   | .struct kvs, t, h => by
     simp only [hasTyB, Bool.and_eq_true, beq_iff_eq] at h
     simp only [HasTy]
